@@ -44,6 +44,9 @@ static std::string handle(const std::string & kind, const std::string & path)
   std::string verdict = "ok", detail;
   try {
     if (kind == "d0t") {
+      std::string first_what;
+      bool first_threw = false;
+      try {
       bxdecay0::event_reader::config_type cfg;
       cfg.event_files.push_back(path);
       bxdecay0::event_reader rd(cfg);
@@ -57,6 +60,33 @@ static std::string handle(const std::string & kind, const std::string & path)
         if (++n > 64) return "{\"verdict\":\"unbounded\",\"detail\":\"more than 64 events delivered from a two-event file\"}";
       }
       detail = std::to_string(n) + " events";
+      } catch (std::exception & e) {
+        first_threw = true;
+        first_what = e.what();
+      }
+      // the same file read as a window that starts after the first event (the reader skips records on another path,
+      // at configuration time): an error is allowed, a crash is not
+      for (int start : {1, 2}) {
+        try {
+          bxdecay0::event_reader::config_type cfg2;
+          cfg2.event_files.push_back(path);
+          cfg2.start_event = start;
+          cfg2.max_nb_events = 1;
+          bxdecay0::event_reader rd2(cfg2);
+          int m = 0;
+          while (rd2.has_next_event()) {
+            bxdecay0::event ev;
+            rd2.load_next_event(ev);
+            if (!ev.is_valid()) return "{\"verdict\":\"garbage\",\"detail\":\"a delivered event (window starting at " + std::to_string(start) + ") fails event::is_valid()\"}";
+            if (++m > 1) return "{\"verdict\":\"unbounded\",\"detail\":\"more events delivered than the window allows\"}";
+          }
+        } catch (std::exception &) {
+        }
+      }
+      if (first_threw) {
+        verdict = "exception";
+        detail = first_what;
+      }
     } else if (kind == "pdf" || kind == "ocdf") {
       setenv("BXDECAY0_DBD_GA_DATA_DIR", path.c_str(), 1);
       bxdecay0::dbd_gA g;
